@@ -65,9 +65,10 @@ BOUNDS = {
                   ClipMaxLen=4, ClipMaxLenW=3, ClipVals={0, 1, 2, 3, 6}, ClipWts={1, 8}, NSigIdx={1, 2, 4}, ClipNiter=NITER,
                   TabX=set(range(0, 5)), TabV={0, 1, 4}, TabMax=4,
                   CovMaxN=2, CovDiag={1, 2, 4, 9}, CovOffN=6, CovShift=3, DefMaxW=12),
-    "thorough": dict(MinLen=1, MaxLen=4, Vals=set(range(0, 5)), Wts={0, 1, 2, 8}, MaxW=32, MuNone=True,
-                     N2Max=3, Vals2={0, 1, 4}, Wts2={0, 1, 2},
-                     ClipMaxLen=5, ClipMaxLenW=4, ClipVals={0, 1, 2, 3, 6}, ClipWts={1, 2, 8}, NSigIdx={1, 2, 3, 4, 5, 6},
+    # (sized so that the whole tier - model, ~0.5 million replayed calls records, trace validation - stays within ~15 min)
+    "thorough": dict(MinLen=1, MaxLen=4, Vals={0, 1, 3, 4}, Wts={0, 1, 2, 8}, MaxW=32, MuNone=True,
+                     N2Max=3, Vals2={0, 3}, Wts2={0, 1, 2},
+                     ClipMaxLen=5, ClipMaxLenW=3, ClipVals={0, 1, 2, 3, 6}, ClipWts={1, 2, 8}, NSigIdx={1, 2, 3, 4, 5, 6},
                      ClipNiter=NITER, TabX=set(range(0, 7)), TabV=set(range(0, 6)), TabMax=4,
                      CovMaxN=3, CovDiag={1, 2, 4, 9}, CovOffN=6, CovShift=3, DefMaxW=12),
 }
@@ -75,7 +76,8 @@ INVARIANTS = ["DefsAgree", "MomentsSane", "MedSafe", "MedRefines", "ClipRefines"
               "ClipStatsDefined", "InterpRefines", "CovSane", "DesignCovers", "RepAdmissible"]
 # quantify over SUBSET x SUBSET of the positions in every clipping state: checked in a run of their own on a small scope
 CLIP_THEOREMS = ["ClipPredsAgree", "ClipTolSound"]
-CLIP_THEOREM_BOUNDS = dict(ClipMaxLen=4, ClipMaxLenW=3, ClipVals={0, 1, 2, 3, 6}, ClipWts={1, 8}, NSigIdx={1, 2, 4})
+CLIP_THEOREM_BOUNDS = {"quick": dict(ClipMaxLen=3, ClipMaxLenW=3, ClipVals={0, 1, 2, 3, 6}, ClipWts={1, 8}, NSigIdx={1, 2, 4}),
+                       "thorough": dict(ClipMaxLen=4, ClipMaxLenW=3, ClipVals={0, 1, 2, 3, 6}, ClipWts={1, 8}, NSigIdx={1, 2, 4})}
 ACTIONS = ["ChooseX1", "ChooseW1", "ChooseMu", "MedStart", "MedStep", "MedDone", "ChooseX2", "ChooseW2",
            "ChooseClipX", "ChooseClipW", "ClipStep", "ClipFinish", "ChooseNodes", "ChooseTabV", "ChooseCovDiag", "ChooseCovOff",
            "ChooseRpWm", "ChooseRpCl", "ChooseRpIp", "ChooseRpCv"]
@@ -492,8 +494,7 @@ def ex_cov(c, ps):
     fr = Frame(m)
     big = max(abs(v) for row in c["m"] for v in row)
     dmax = max(c["m"][i][i] for i in range(len(c["m"])))
-    # (numpy computes sqrt of a 16-bit integer in float32: a uint16 matrix is judged to float32 rounding)
-    f4 = rep in ("f4", "u2")
+    f4 = rep == "f4"
 
     def pcor(v):
         if f4:
@@ -769,9 +770,9 @@ def run(ctx):
     #     tolerance-aware relations contain the exact ones / coincide with them at tolerance 0: on every pair of subsets
     #     of every clipping state of a small scope (SUBSET x SUBSET per state - too expensive on the thorough bounds)
     r1a = ctx.tlc("StatsMC.tla", what="clipping relations: predicate = set form, tolerance-aware contains exact (small scope)",
-                  cfg_text=cfg(constants=dict(consts, Kinds={"cl"}, **CLIP_THEOREM_BOUNDS), invariants=CLIP_THEOREMS, next_="NextExport"),
+                  cfg_text=cfg(constants=dict(consts, Kinds={"cl"}, **CLIP_THEOREM_BOUNDS[ctx.tier]), invariants=CLIP_THEOREMS, next_="NextExport"),
                   workers=16, coverage=False, timeout=3000)      # (NextExport: the cases only - the theorems do not read the iteration state)
-    if r1a.distinct < 1000:
+    if r1a.distinct < 500:
         raise MachineryError("clipping-relation run too small: %d states" % r1a.distinct)
     # 1b. non-vacuity of MedRefines: a deviating loop test must violate it
     r1b = ctx.tlc("StatsMC.tla", what="self-test: deviating wmedian loop violates MedRefines",
@@ -797,27 +798,34 @@ def run(ctx):
     for cse in cases:
         for op, c, ps in jobs_of(cse, opts):
             jobs.append((len(jobs) + 1, op, c, ps))
-    recs = pmap(execute, jobs)
-    cen = {}
-    for r in recs:
-        ctx.count({"op": r["op"], "c": r["c"]}, n=len(r["runs"]))
-    census(recs, cen)
-    seen = set()
-    for r in recs:
-        last = r["runs"][-1]["o"]
-        key = (r["op"], r["op"] != "cov" and lat(r["c"]["lat"])["big"])
-        if key not in seen and last["err"] == "none" and (r["op"] != "clip" or len(last["steps"][-1]) < len(r["c"]["x"])):
-            seen.add(key)
-            ctx.sample({"op": r["op"], "case": r["c"], "params": r["runs"][-1]["p"], "observed": r["runs"][-1]["o"]}, cap=12)
-    rejected = set(judge(ctx, recs, "judge replayed cases (StatsTrace)"))
+    del cases
+    cen, seen, probe = {}, set(), []
+
+    def batch(jobs, what):
+        """replay + judge in chunks (a record carries every projected observation of every call: keep memory bounded)"""
+        chunk = 40000
+        for lo in range(0, len(jobs), chunk):
+            recs = pmap(execute, jobs[lo:lo + chunk])
+            for r in recs:
+                ctx.count({"op": r["op"], "c": r["c"]}, n=len(r["runs"]))
+            census(recs, cen)
+            for r in recs:
+                last = r["runs"][-1]["o"]
+                key = (r["op"], r["op"] != "cov" and lat(r["c"]["lat"])["big"])
+                if key not in seen and last["err"] == "none" and (r["op"] != "clip" or len(last["steps"][-1]) < len(r["c"]["x"])):
+                    seen.add(key)
+                    ctx.sample({"op": r["op"], "case": r["c"], "params": r["runs"][-1]["p"], "observed": r["runs"][-1]["o"]}, cap=12)
+            rej = judge(ctx, recs, what if len(jobs) <= chunk else "%s [%d..%d]" % (what, lo + 1, lo + len(recs)))
+            if not probe:
+                # self-test material: accepted records only (a broken tree must not break the self-test)
+                probe.extend(r for r in recs[:: max(1, len(recs) // 6000)] if r["id"] not in rej)
+        return len(jobs)
+
+    nrec = batch(jobs, "judge replayed cases (StatsTrace)")
     # 3. larger seeded cases (code -> spec)
-    nrand = 1500 if ctx.quick else 30000
+    nrand = 1500 if ctx.quick else 20000
     sj = seeded_jobs(random.Random(ctx.seed), nrand, opts)
-    rrecs = pmap(execute, [(len(recs) + 1 + i, op, c, ps) for i, (op, c, ps) in enumerate(sj)])
-    for r in rrecs:
-        ctx.count({"op": r["op"], "c": r["c"]}, n=len(r["runs"]))
-    census(rrecs, cen)
-    judge(ctx, rrecs, "judge seeded larger cases (StatsTrace)")
+    nseed = batch([(nrec + 1 + i, op, c, ps) for i, (op, c, ps) in enumerate(sj)], "judge seeded larger cases (StatsTrace)")
     # 4. vacuity guards on the two added dimensions, binding self-test
     pairs = cen.pop("pairs")
     need = (["rep:" + r for r in opts["reps"]] + ["lat:" + l["name"] for l in opts["lats"]] +
@@ -826,7 +834,7 @@ def run(ctx):
     missing = [k for k in need if not cen.get(k)]
     if missing and not ctx.violations:
         raise MachineryError("vacuous run: nothing exercised %s" % missing)
-    selftest(ctx, [r for r in recs if r["id"] not in rejected])      # probe accepted records only (a broken tree must not break the self-test)
+    selftest(ctx, probe)
     ctx.rule = ("every (data, weights) pair with data of length %d..%d over %d lattice values and weights over %s (total <= %d) x "
                 "calcerr x sdev x inputmean in {none, %s}; every N-by-2 input (N <= %d) with 1-d and N-by-2 weights; every clipping "
                 "input of length <= %d over %s (weighted: length <= %d, weights %s) x nsig in %s x niter 0..%d (each iteration "
@@ -844,7 +852,7 @@ def run(ctx):
                  "every row of the design" if ctx.quick else "the full product representation x representation x lattice", len(sj)))
     ctx.exhaustive = True
     ctx.note(bounds={k: sorted(v) if isinstance(v, set) else v for k, v in B.items()}, exported_cases=nkinds,
-             records=len(recs), seeded_records=len(rrecs), census={k: v for k, v in sorted(cen.items())},
+             records=nrec, seeded_records=nseed, census={k: v for k, v in sorted(cen.items())},
              distinct_op_argument_representation_lattice_combinations=len(pairs))
     ctx.assumptions = [
         "dyadic lattice: data (x+off)*2^k, weights w*2^j; expected values are exact rationals with denominator <= 2^20",
